@@ -1,8 +1,8 @@
 """C17 — event queue: nothing lost, duplicated or reordered; injections delivered once (EventQueue.tla).
 
 Binding B1: TLC enumerates every interleaving of {viewer polls (fresh ack / repeated ack after a
-lost response), simulator answers with 1-2 events of several shapes (untemplated / templated with a complete body, an
-omitted block or an empty block / region-announcing),
+lost response), simulator answers with 1-2 events of several shapes (untemplated with a map / array / string / undef /
+integer body, templated with a complete body, an omitted block or an empty block, region-announcing),
 addons swallow any subset of the plain events, addon injects, non-200 answer, region teardown}
 up to the depth bound.  Every edge is replayed into a fresh real Session / ProxiedRegion behind the
 real MITMProxyEventManager._handle_request / _handle_response (mitmproxy flows, state-serialised
@@ -90,6 +90,10 @@ class World:
         k, x = kind["k"], kind["reg"]
         if k == "p":
             ev = {"message": "VerifPlainEvent", "body": {"n": vid}}
+        elif k in ("ba", "bs", "bu", "bi"):
+            # an untemplated event whose body is not a map: LLSD array / string / undef / integer
+            ev = {"message": "VerifOddBodyEvent",
+                  "body": {"ba": [vid, "x", {"k": vid}], "bs": "body of %d" % vid, "bu": None, "bi": vid}[k]}
         elif k in ("tc", "to", "te"):
             # A templated message whose variable-count GroupData block holds a U64 (GroupPowers) the proxy has to
             # unpack; written out by hand (not with the serializer under test) the way a simulator sends it.
@@ -365,9 +369,10 @@ def run(chk: Check):
         "what was owed or queued at a region teardown is dropped with the region; the simulator does not answer a poll "
         "that was outstanding at teardown",
         "events are identified by an extra key on the event map, which the proxy hands through untouched",
+        "every event map has a 'message' and a 'body' key (the body may be undef)",
     ]
     if chk.tier == "quick":
-        _b1(chk, dict(MaxEv=4, MaxInj=2, MaxDown=1, Batches="1,2,3,4,5,6,7", Depth=7), "ev4-d7", 8000)
+        _b1(chk, dict(MaxEv=4, MaxInj=2, MaxDown=1, Batches="1,2,3,4,5,6,7,8", Depth=7), "ev4-d7", 8000)
     else:
-        _b1(chk, dict(MaxEv=5, MaxInj=2, MaxDown=1, Batches="1,2,3,4,5,6,7", Depth=9), "ev5-d9", 60000)
+        _b1(chk, dict(MaxEv=5, MaxInj=2, MaxDown=1, Batches="1,2,3,4,5,6,7,8", Depth=9), "ev5-d9", 60000)
     chk.cov["exhaustive"] = True
